@@ -12,7 +12,7 @@ from common import Report, say
 from hsim import batch, core, faultsim as FS
 
 PER_KIND = {"quick": 3, "thorough": 110}
-COMBO_N = {"quick": 15, "thorough": 150}
+COMBO_N = {"quick": 28, "thorough": 224}
 OUT_ERR_ENUM = {"quick": 10, "thorough": None}  # None = every k
 
 
